@@ -123,7 +123,7 @@ func sameFields(ms []*model.Seg) bool {
 }
 
 func mergeWorkload(c *Ctx, slice int) {
-	n := c.N(1600, 20000)
+	n := c.N(1600, 60000)
 	if slice == sliceDec {
 		n = c.N(660, 6600)
 	}
@@ -192,7 +192,12 @@ func runMergePlan(c *Ctx, i int, rng *rand.Rand, class string, slice int) {
 			o.Syn, o.Vec = false, slice == sliceVec // >= 1000 vectors: the merged index is a clustered one
 		case "xwide":
 			cl = "xwide"
-			if l > 1 {
+			if r := i / len(planClasses) / 3; r%2 == 1 {
+				// every leaf has the same w-fields plus _id and _all: the merged field list
+				// has exactly 64 / 65 / 66 / 128 / 129 / 256 / 257 entries
+				o.NumFields = []int{65, 64, 66, 128, 129, 256, 257, 63}[(r/2)%8] - 2
+				o.Syn, o.Vec = false, false
+			} else if l > 1 {
 				cl = "small"
 			}
 		case "tall-edge":
